@@ -56,3 +56,21 @@ class AstParse:
     returns = 'AstModule'
     params = ['source']
     raises = ('SyntaxError', 'RecursionError', 'MemoryError')
+@external('supervisor.options.split_namespec')
+class SplitNamespec:
+    """supervisor.options.split_namespec: 'group:name' -> (group, name), 'group:*' / 'group:' -> (group, None),
+    'name' -> (name, name).  Strings are uninterpreted here: only 'a deterministic function of the namespec whose
+    second component is None or a non-empty name other than *' is assumed."""
+    returns = 'Tuple[str, Optional[str]]'
+    params = ['namespec']
+    functional = True
+
+    def post_process_name(namespec, result):
+        return result[1] is None or (result[1] != '' and result[1] != '*')
+
+
+@external('traceback.format_exc')
+class TracebackFormatExc:
+    """text of the exception being handled (only logged)"""
+    returns = 'str'
+    params = []
